@@ -146,3 +146,61 @@ theorem wsq_pos (lam d : List ℝ) (hl : ∀ l ∈ lam, 0 < l) (hlen : lam.lengt
         linarith
 
 end PP.LMLoop
+
+/-! ## pass 10: the diagonal the code hands to the solver -/
+namespace PP.LMLoop
+open PP
+
+theorem tclamp_eq (lo hi x : ℝ) : tclamp lo hi x = min (max x lo) hi := by
+  unfold tclamp
+  simp only [lt_real, decide_eq_true_eq]
+  by_cases h1 : x < lo
+  · rw [if_pos h1, max_eq_right h1.le]
+    by_cases h2 : hi < lo
+    · rw [if_pos h2, min_eq_right h2.le]
+    · rw [if_neg h2, min_eq_left (not_lt.mp h2)]
+  · rw [if_neg h1, max_eq_left (not_lt.mp h1)]
+    by_cases h2 : hi < x
+    · rw [if_pos h2, min_eq_right h2.le]
+    · rw [if_neg h2, min_eq_left (not_lt.mp h2)]
+
+/-- inside the upper bound the clamp only raises: `clamp(a) = max(a, lo) ≥ a, lo` -/
+theorem tclamp_of_le (lo hi a : ℝ) (hlh : lo ≤ hi) (ha : a ≤ hi) : tclamp lo hi a = max a lo := by
+  rw [tclamp_eq]; exact min_eq_left (max_le ha hlh)
+
+theorem foldl_damp (d : ℝ) (damps : List ℝ) :
+    damps.foldl (fun d lam => d + d * lam) d = d * (damps.map (fun lam => 1 + lam)).prod := by
+  induction damps generalizing d with
+  | nil => simp
+  | cons l damps ih =>
+    simp only [List.foldl_cons, List.map_cons, List.prod_cons]
+    rw [ih]; ring
+
+theorem prod_one_add_ge (damps : List ℝ) (hp : ∀ l ∈ damps, 0 < l) : 1 ≤ (damps.map (fun lam => 1 + lam)).prod := by
+  induction damps with
+  | nil => simp
+  | cons l damps ih =>
+    have h1 : 0 < l := hp l (List.mem_cons_self ..)
+    have h2 := ih (fun l' h => hp l' (List.mem_cons_of_mem _ h))
+    simp only [List.map_cons, List.prod_cons]
+    nlinarith
+
+theorem prod_one_add_gt (damps : List ℝ) (hp : ∀ l ∈ damps, 0 < l) (hne : damps ≠ []) :
+    1 < (damps.map (fun lam => 1 + lam)).prod := by
+  cases damps with
+  | nil => exact absurd rfl hne
+  | cons l damps =>
+    have h1 : 0 < l := hp l (List.mem_cons_self ..)
+    have h2 := prod_one_add_ge damps (fun l' h => hp l' (List.mem_cons_of_mem _ h))
+    simp only [List.map_cons, List.prod_cons]
+    nlinarith
+
+theorem diagJtJ_length (n : Nat) (J : DMat ℝ) (hw : ∀ r ∈ J, r.length = n) : (diagJtJ n J).length = n := by
+  induction J with
+  | nil => simp [diagJtJ, DVec.zero]
+  | cons r J ih =>
+    have h1 : r.length = n := hw r (List.mem_cons_self ..)
+    have h2 := ih (fun r' hr' => hw r' (List.mem_cons_of_mem _ hr'))
+    simp [diagJtJ, DVec.add, h1, h2]
+
+end PP.LMLoop
